@@ -31,7 +31,7 @@ def one(sid):
         for l in viol:
             m = re.search(r"replay=(\S+)", l)
             names.append(os.path.basename(m.group(1))[:-5] if m else l)
-        kinds = sorted({"bounded" if n.startswith("bounded_") else "finite" if n.startswith("finite_") else "proof" for n in names})
+        kinds = sorted({"bounded" if n.startswith("bounded_") else "finite" if n.startswith("finite_") else "contract-replay" if "spec-replay" in n else "proof" for n in names})
         return sid, {"check_rc": c.returncode, "violations": len(viol), "caught_by": kinds, "first": names[:4], "seconds": round(dt),
                      "no_input": sum(1 for l in viol if l.rstrip().endswith("no-failing-input-found"))}
     finally:
